@@ -106,6 +106,59 @@ def std_polar_xy(ctx):
     ctx.eq("im", im1, im0, clause="std_polar (from Cartesian) preserves Im")
 
 
+def _mk_standard_complex(which):
+    """VarsManager.standard_complex (the sign / phase tidy-up that ends every scipy fit) on two polar parameters a, b with symbolic values
+    (radii of either sign, any phase) where - depending on `which` - the radii (or phases) are ONE shared variable (a tie made by set_same:
+    same Variable object under both names, names listed in same_list with either member first), or a carries a bound.  Every parameter must
+    stand for the same complex number afterwards; an unconstrained one is standardised.  (Added after seeded change
+    C08-standard_complex_head_of_tie_group: normalising one member of a tie group flips the shared radius under the other members.)"""
+    def g(ctx):
+        tf = ctx.tf
+        variable = ctx.mod("variable")
+        ra, pa, rb, pb = ctx.real("ra", (), s_r), ctx.real("pa", (), s_phase), ctx.real("rb", (), s_r), ctx.real("pb", (), s_phase)
+        rc, pc = ctx.real("rc", (), s_r), ctx.real("pc", (), s_phase)
+        vm = variable.VarsManager.__new__(variable.VarsManager)
+        V = tf.Variable
+        # the unconstrained parameter c (6 paths through std_polar) only in the pattern "free": a and b are skipped there by construction
+        names = "c" if which == "free" else "ab"
+        allv = {"ar": V(ra), "ai": V(pa), "br": V(rb), "bi": V(pb), "cr": V(rc), "ci": V(pc)}
+        vm.variables = {k: v for k, v in allv.items() if k[0] in names}
+        vm.complex_vars = {n: True for n in names}
+        vm.same_list, vm.bnd_dic, vm.mask_vars = [], {}, {}
+        vm.trainable_vars = list(vm.variables)
+        if which.startswith("tie_r"):
+            vm.variables["br"] = vm.variables["ar"]
+            vm.trainable_vars.remove("br")
+            vm.same_list = [["ar", "br"]] if which == "tie_r/head_first" else [["br", "ar"]]
+        elif which.startswith("tie_phase"):
+            vm.variables["bi"] = vm.variables["ai"]
+            vm.trainable_vars.remove("bi")
+            vm.same_list = [["ai", "bi"]] if which == "tie_phase/head_first" else [["bi", "ai"]]
+        elif which == "bound_r":
+            vm.bnd_dic = {"ar": variable.Bound(None, 5.0)}
+        elif which == "bound_phase":
+            vm.bnd_dic = {"ai": variable.Bound(-10.0, 10.0)}
+        before = {n: _value(tf, vm, n) for n in names}
+        vm.standard_complex()
+        for n in names:
+            re1, im1 = _value(tf, vm, n)
+            ctx.eq(n + ".re", re1, before[n][0], clause="standard_complex (%s): Re of the complex value of parameter %s is unchanged" % (which, n))
+            ctx.eq(n + ".im", im1, before[n][1], clause="standard_complex (%s): Im of the complex value of parameter %s is unchanged" % (which, n))
+        if which == "free":
+            r1, p1 = tf.convert_to_tensor(vm.variables["cr"]), tf.convert_to_tensor(vm.variables["ci"])
+            ctx.holds("c.standardised", (r1 >= 0.0) & (p1 >= -math.pi) & (p1 < math.pi), clause="the unconstrained parameter c ends with r >= 0 and -pi <= phi < pi")
+        if which.startswith("tie"):
+            k = "r" if which.startswith("tie_r") else "i"
+            ctx.eq("tie", tf.convert_to_tensor(vm.variables["a" + k]), tf.convert_to_tensor(vm.variables["b" + k]), clause="tied members are still equal")
+
+    return g
+
+
+for _w in ("free", "tie_r/head_first", "tie_r/head_last", "tie_phase/head_first", "tie_phase/head_last", "bound_r", "bound_phase"):
+    group(["C16", "C08"], "variable.VarsManager.standard_complex/" + _w, ["variable:VarsManager.standard_complex", "variable:VarsManager.std_polar"],
+          bound="three polar parameters, constraint pattern: " + _w)(_mk_standard_complex(_w))
+
+
 @group(["C16"], "variable.VarsManager._std_polar_angle", ["variable:VarsManager._std_polar_angle"])
 def std_polar_angle(ctx):
     tf = ctx.tf
